@@ -52,6 +52,10 @@ FIXED = [
      "[Jump->op2, BranchDebug->the entry Jump, op2, Jump->BranchDebug] started with the if instead of op2(); [Jump->J2, Jump->entry (unreachable), op2, J2: Jump->End, End] decompiled to `op2(); return;` (the former C02-entry-jump-targeted list, 42 inputs, and ~1500 cyclic ones)"),
     ("C02", "fix: a with-block was written around a message switch, which the grammar rejects",
      "[lives 1, message_SwitchTalk $V40, CaseText.., DefaultText.., End] (compiled from `with (actor 1) { jump @l; } @l; message_SwitchTalk ($V40) {..}`) decompiled to `with (actor 1) { message_SwitchTalk (..) {..} }`: ParseError when compiled again (the former C02-ctx-before-block entry); now the exact fallback"),
+    ("C02", "fix: the common-next-vertex search forgot which edge first led a path to a vertex",
+     "`forever { switch ($A) { case 1: a(); break; case 2: b0(); b1(); b2(); b3(); break; } }` (and a switch in front of a loop whose cases differ in length by the loop length) decompiled with `case 1: a();` without break, a() fell through into case 2 (21 of the 990 G-lengths programs; first seen by a sub-agent's random programs, the generators had no branch bodies longer than 2 ops next to a loop)"),
+    ("C04", "fix: form feeds, vertical tabs, NEL, U+2028 and other separators in strings were read as new lines",
+     "string 'a\\u2028b\\nc' (likewise \\x0b \\x0c \\x1c \\x85 \\u2029 next to a newline) printed as a multi-line literal came back as 'a\\nb\\nc' (str.splitlines() in the reader); 'a\\x0c' was printed as a single-line literal, which the grammar rejects (8.9k of 10.8k new failures when the other white-space characters were added to C04's alphabet)"),
     ("C02", "fix: dungeon mode values other than 0..3 were printed as the 'closed' constant",
      "`switch (dungeon_mode(D)) { case DMODE_OPEN: .. }` (or any constant / other number as case value or flag_SetDungeonMode value) decompiled to `case DMODE_CLOSE:` (476 of 55k inputs under seed rotation 2)"),
     ("C09", "fix: inserted break_loop/continue statements overwrote the source map entry of the op before them",
